@@ -6,7 +6,7 @@ VARIABLE c
 
 Long == Rep("A", 600)
 Payloads == {"", "x", "a b", "x" \o CR \o "y", "x" \o LF \o "y", "x" \o CR \o LF \o "y", "x" \o LF \o "QUIT", "x" \o CR \o "QUIT :y",
-             LF, CR \o LF \o "PING 1", "x" \o LF \o "QUIT :y" \o CR \o LF, "a" \o CR \o LF \o "b" \o LF, "a" \o SOH \o "b", SOH \o "x" \o SOH, Long,
+             LF, CR \o LF \o "PING 1", "x" \o LF \o "QUIT :y" \o CR \o LF, "a" \o CR \o LF \o "b" \o LF, "a" \o SOH \o "b", SOH \o "x" \o SOH, Long, SOH \o "ACTION " \o Rep("waves. ", 90) \o SOH,
              "a" \o NUL \o "b", "a" \o NUL \o "b" \o CR \o LF \o "QUIT :y", NUL \o LF \o "QUIT", "x" \o LF \o NUL \o "y", SOH \o NUL \o CR \o "z", Rep("A b. ", 60) \o LF \o Rep("c", 300)}
   \cup (IF Thorough THEN {CR, " ", ":", Rep("B", 511), Rep("B", 509), Rep("ab, cd. ", 80), Rep("x ", 300) \o CR \o LF \o "QUIT", LF \o LF, "x" \o CR} ELSE {})
 SplitLens == IF Thorough THEN {0 - 1, 0, 12, 13, 14, 23, 450, 600} ELSE {0, 13, 450}
